@@ -97,9 +97,9 @@ def build(d):
 
 def instances(tier, rng):
     out = []
-    frames = [(0, 0), (1, 1), (1, 2), (2, 1), (2, 2), (0, 2), (1, 3)]
+    frames = [(0, 0), (1, 1), (1, 2), (2, 1), (2, 2), (0, 2), (1, 3), (2, 3), (3, 2)]
     if tier == "thorough":
-        frames += [(2, 3), (3, 2), (3, 3), (2, 4), (1, 5)]
+        frames += [(3, 3), (2, 4), (4, 2), (1, 5)]
     for (h, w) in frames:
         for cyc in (False, True):
             for prim in (False, True):
